@@ -62,6 +62,7 @@ func main() {
 		t.DefaultBuildSetsLdflag = makefileSetsLdflag(string(mk))
 	}
 	t.MapRanges = w.mapRanges()
+	t.Accessors = w.accessors()
 	t.Collections = w.collections()
 	t.CliCmds = w.cliCmds()
 	t.Rpcs = w.rpcs()
